@@ -13,7 +13,7 @@ import sys, json
 P, desc, out, n = sys.argv[1:5]
 d = open(desc).read().strip().split("\n")
 json.dump({"property": P, "change": d[0], "needs_to_manifest": " ".join(d[1:]),
-           "origin": "independent sub-agent (round 5) given only the property text, the list of earlier changes to avoid, and a scratch worktree",
+           "origin": "independent sub-agent (round 6) given only the property text, the list of earlier changes to avoid, and a scratch worktree",
            "confirmed": "tools/confirm_seed.sh (suite run against the worktree's sources via PYTHONPATH): demo passes on the clean tree; with the patch the suite is still 157 passed (+ the 1 baseline failure) and the demo fails",
            "ran": [f"tools/try_seed2.sh {P} seeded/{P}-{n}/patch.diff"], "result": "pending"}, open(out, "w"), indent=1)
 PY
